@@ -49,9 +49,8 @@ ASSUMPTIONS = [
     "inputs obey the laws of chunking and the OverlapWindowPlugin docstring: rows disjoint (hence sorted by time "
     "and by endtime), positive duration, wholly inside their chunk; zero-duration chunks are empty; the run has "
     "positive duration; one dependency, or two dependencies of different kinds cut at the same times (the "
-    "time-alignment of unequally chunked inputs is property C08); with two dependencies no trailing zero-duration "
-    "chunk is generated (finding F14 of C08: Plugin.iter never fetches it) and each input has <= 10 rows, so that "
-    "the documented max_trials = 10 alignment passes of cache_beyond cannot be exhausted",
+    "time-alignment of unequally chunked inputs is property C08); each input then has <= 10 rows, so that the "
+    "documented max_trials = 10 alignment passes of cache_beyond cannot be exhausted",
     "locality contract, regime 'contract' (80% of cases): row computation - output i depends only on input rows j "
     "with endtime_i - w_left <= endtime_j <= endtime_i + w_right (overlaps.rst: objects whose endtimes are more "
     "than a window apart do not influence each other; window_size[0] = look-back, [1] = look-ahead as used by "
@@ -170,8 +169,7 @@ def st_case(draw, mode):
     last = max([b for _, b in rows + (rows_b or [])] + [0])
     t1 = max(last + draw(st.sampled_from([0, 0, 1, 2, 5, 9])), 1)
     both = rows + (rows_b or [])
-    # a second input must not end with a zero-duration chunk (finding F14 of C08: never fetched by Plugin.iter)
-    adm = [s for s in range(0, t1 + (0 if two else 1)) if gen.admissible(both, s)]
+    adm = [s for s in range(0, t1 + 1) if gen.admissible(both, s)]
     inner = [s for s in adm if 0 < s < t1]
     shape = draw(st.sampled_from(["few", "many", "many", "edges", "dense", "dense", "dup", "none"]))
     if shape == "none":
